@@ -17,6 +17,7 @@
    xmlbin <codec> s|k <tree>           -> the same for XMLConverter (strict) | encode-error
    utf32dec <hex> / utf16dec <hex>     -> hex(UTF-8) of `utf32Decode` / `utf16Decode` (the decoders of C11_sink_utf32 / _utf16) | undecodable
 
+   csname <str>                        -> in | out   (membership in the regenerated table of colour-space names)
    esc.enc <str>  esc.attr s|k <str>  esc.text s|k <str>   -> hex(UTF-8) of the model's utils.enc / XMLConverter.attr / write_text
    esc.unesc <hex utf-8>               -> hex(UTF-8) of `unescAny` (references replaced, nothing else) | bad-reference
 
@@ -236,6 +237,10 @@ def step (line : String) : String :=
     match stripFlag sf, codecOf cw, parsePages tree with
     | some strip, some codec, some ps => hexOfStr (sinkText (xmlDocWrites strip codec ps))
     | _, _, _ => "bad-op"
+  | ["csname", w] =>
+    match strOfCps w with
+    | some t => if PdfVerif.Gen.ConvertFmt.colourSpaceNames.contains t then "in" else "out"
+    | none => "bad-op"
   | ["esc.enc", w] =>
     match strOfCps w with
     | some t => hexOfStr (enc t)
